@@ -263,7 +263,9 @@ def obligations(tier):
     from pydiffx.writer import DiffXWriter
     quick = tier == 'quick'
     obs = []
-    if all(hasattr(DiffXWriter, a) for a in ('_new_container_section', '_new_content_section')):
+    from harness.rw import writer_internals_missing
+    missing = writer_internals_missing()
+    if missing is None:
         obs.append(Ob('writer-step', ob_writer_step, dict(N=2 if quick else 3),
                       must_reach=['DiffXWriter._new_container_section', 'DiffXWriter._prepare_content'],
                       desc='one writer call from an arbitrary valid writer state (_prev_section in 9 ids, _stack with '
@@ -271,7 +273,7 @@ def obligations(tier):
                            'effective encoding to norm(text); stack afterwards as the reference says',
                       bounds={'text_len': [1, 2 if quick else 3], 'catalogue': CAT[:3]}))
     else:
-        obs.append(('skipped', 'writer-step', 'DiffXWriter internals (_stack/_new_*_section) not found'))
+        obs.append(('skipped', 'writer-step', missing))
     step, why = _extract()
     if step is None:
         obs.append(('skipped', 'reader-step', why))
